@@ -157,6 +157,11 @@ func (x *exec) Main() {
 			}
 		}
 		x.db.CommitMerge(ut)
+		// the merger takes the state it is started with as the persisted one (in
+		// production StartConcur follows OpenDb / CreateDb directly): persist the
+		// initial rows before it starts, else a run in which nothing commits
+		// would end with a "persisted" state whose btrees lack them
+		x.db.PersistSync()
 	}
 	db19.StartConcur(x.db, 10_000_000_000) // persist ticker: 10 s of virtual time
 	x.started = true
@@ -756,6 +761,7 @@ func (x *exec) checkSnapshot(tr *TranRec) *sched.Failure {
 func NewScenario(sc *Scenario, or Oracles) *sched.Scenario {
 	return &sched.Scenario{Name: sc.Name, MaxBound: sc.MaxBound, TimerBudget: sc.Ticks, MaxSteps: 60000,
 		FreeCost:  sc.FreeCost,
+		AutoDelay: sc.AutoDelay, AutoDelayBound: 2,
 		Symmetric: []string{"startMergeWorkers", "startExecPersistMulti"},
 		New:       func() sched.Execution { return &exec{sc: sc, or: or} }}
 }
